@@ -549,36 +549,6 @@ def macroman_search(ctx, shim):
 # ----------------------------------------------------------------------------------------------
 # every shaper, every normalization mode: a character the font maps keeps its own glyph (C16_mapped_character_own_glyph)
 
-def mapped_run_lines(r, n):
-    """`norm runv` requests (C09's protocol: the hook runs _hb_ot_shape_normalize with each of the five normalization
-    preferences) about MAPPED characters: texts of 1-4 characters over the no-decomposition family (General Punctuation,
-    spaces, U+2010 / U+2011, one letter per script), decomposable key characters and marks; the font maps a random
-    subset of the relevant characters (the text's own characters three times out of four), so that every branch of
-    decompose_current_character — own glyph, decomposition preferred, space fallback, U+2011 fallback, .notdef — is taken
-    in every mode, alone and next to marks"""
-    import C09
-    plain = L.no_decomp_family()
-    keyd = [c for c in L.RD() if (L.own_script(c) or L.dec1(c)[1] == 0 or L.gc(c) == "Zs")
-            and not (0xF900 <= c <= 0xFAFF or 0x2F800 <= c <= 0x2FA1F)]
-    marks = [0x301, 0x323, 0x5B4, 0x64E, 0x951, 0xCBC, 0x17DD, 0x1037, 0xF39]
-    lines = []
-    for _ in range(n):
-        k = r.below(8)
-        text = [r.choice(plain if r.chance(2, 3) else keyd)]
-        if k >= 2: text.append(r.choice(marks))                       # the character is the base of a multi-character cluster
-        if k >= 4: text.insert(0, r.choice(plain))
-        if k >= 6: text.append(r.choice(plain + keyd))
-        rel = []
-        for c in text:
-            for x in L.relevant(c) + [0x20] + list(L.HYPHENS):
-                if x not in rel: rel.append(x)
-        chosen = [x for x in rel if r.chance(3, 4) if x in text] + [x for x in rel if x not in text and r.chance(1, 2)]
-        groups = C09.groups_from_set(chosen) if r.chance(5, 6) else C09.groups_all_but([x for x in rel if x not in chosen])
-        cl = list(range(len(text))) if r.chance(1, 2) else [3] * len(text)
-        lines.append(C09.run_line(r.below(5), r.below(2), r.choice([None, None, 2]), groups, text, cl, [0] * len(text)))
-    return lines
-
-
 def lattice_keep(env):
     def keep(c, S, text, tag):
         # the cases in which the own-glyph oracle speaks about c itself: c is mapped, not a mark, and the mode of the
@@ -640,7 +610,7 @@ def run(ctx):
     env = L.Env(shim)
     import C09
     own600 = lambda *a: L.judge_own_glyph(*a, adv=lambda g: 600)
-    dis = ctx.correspond("norm-run-mapped", lines=mapped_run_lines(ctx.rng("norm-mapped"), ctx.budget(6000, 150000)),
+    dis = ctx.correspond("norm-run-mapped", lines=L.lattice_run_lines(ctx.rng("norm-mapped"), ctx.budget(6000, 150000), 2),
                          classify=C09.classify_run)
     L.promote_norm_run(ctx, shim, env, dis, ctx.budget(40, 300), [own600], "norm-run-mapped")
     L.search(ctx, shim, env, ctx.rng("lattice"), ("decomposable", "plain"), lattice_keep(env), [L.judge_own_glyph],
